@@ -11,6 +11,7 @@ import (
 	"bytes"
 	"encoding/json"
 	"fmt"
+	"net"
 	"sort"
 	"strings"
 	"testing"
@@ -432,8 +433,13 @@ func c15SessPayload(i, kind int) []byte {
 }
 
 type c15SessIn struct {
-	SubQos int         `json:"subqos"`
-	Ops    []c15SessOp `json:"ops"`
+	SubQos int `json:"subqos"`
+	// the subscriber connects with cleanSession=false, subscribes, drops, its teardown completes, and it reconnects:
+	// the scenario then runs on a session RESTORED FROM THE STORE
+	Restore bool `json:"restore,omitempty"`
+	// Session.nextID is set to this before the scenario (packet ids near the uint16 wrap-around)
+	StartID int         `json:"startid,omitempty"`
+	Ops     []c15SessOp `json:"ops"`
 }
 
 // per op: the packets (id, qos, payload index) received during the op, in order
@@ -468,13 +474,32 @@ func c15RunSess(in c15SessIn) (obs c15SessObs) {
 	}()
 	env := c15NewEnv(false, nil)
 	defer env.closeInto(&obs.Bad)
-	cli, code := env.dial("dev", true, false)
+	cli, code := env.dial("dev", !in.Restore, false)
 	if cli == nil {
 		obs.Bad = append(obs.Bad, fmt.Sprintf("connect refused %d", code))
 		return
 	}
+	c15Quiesce(env.open)
 	if r := cli.subscribe([]string{"t/x"}, []byte{byte(in.SubQos)}); r != "ok" {
 		obs.Bad = append(obs.Bad, "subscribe: "+r)
+	}
+	if in.Restore {
+		c15Quiesce(env.open) // the session (with its subscription) has reached the store
+		cli.closeSock()
+		env.open--
+		if !c15Quiesce(env.open) { // the old connection's teardown is complete: the session left the session map
+			obs.Bad = append(obs.Bad, "hung: no quiescence after the drop")
+		}
+		if cli, code = env.dial("dev", false, false); cli == nil {
+			obs.Bad = append(obs.Bad, fmt.Sprintf("reconnect refused %d", code))
+			return
+		}
+		c15Quiesce(env.open)
+	}
+	if in.StartID != 0 && cli.client != nil {
+		cli.client.session.Lock()
+		cli.client.session.nextID = uint16(in.StartID)
+		cli.client.session.Unlock()
 	}
 	consumed := 0
 	ids := []int{} // distinct QoS1 ids in order of first receipt
@@ -566,7 +591,10 @@ func c15RunSess(in c15SessIn) (obs c15SessObs) {
 }
 
 func c15GenSess(r *vfRand, adv bool) c15SessIn {
-	in := c15SessIn{SubQos: 1}
+	in := c15SessIn{SubQos: 1, Restore: r.Chance(1, 3)}
+	if r.Chance(1, 4) {
+		in.StartID = r.PickInt(65535, 65534, 65533, 65530)
+	}
 	if r.Chance(1, 6) {
 		in.SubQos = 0
 	}
@@ -754,6 +782,12 @@ func TestVerifC15(t *testing.T) {
 				t.Fatal(err)
 			}
 			out.Emit(vfCase{ID: id, Src: src, Grp: grp, In: in, Obs: c15RunCPub(in)})
+		case "slow":
+			var in c15SlowIn
+			if err := json.Unmarshal(raw, &in); err != nil {
+				t.Fatal(err)
+			}
+			out.Emit(vfCase{ID: id, Src: src, Grp: grp, In: in, Obs: c15RunSlow(in)})
 		case "gen":
 			var in c15GenIn
 			if err := json.Unmarshal(raw, &in); err != nil {
@@ -782,6 +816,10 @@ func TestVerifC15(t *testing.T) {
 	if nsess < 2 {
 		nsess = 2
 	}
+	nslow := 1 // a client that stops reading for > 2.5 s: one in the quick tier
+	if vfTier() == "thorough" {
+		nslow = 8
+	}
 	ngen := 4 // object life-cycle scenarios (real API server): few
 	if vfTier() == "thorough" {
 		ngen = 20
@@ -793,6 +831,8 @@ func TestVerifC15(t *testing.T) {
 		switch {
 		case i >= nsess && i < nsess+ngen:
 			grp, in = "gen", c15GenGen(r)
+		case i >= nsess+ngen && i < nsess+ngen+nslow:
+			grp, in = "slow", c15GenSlow(r)
 		case i < nsess:
 			grp, in = "sess", c15GenSess(r, adv)
 		case i%4 == 3:
@@ -803,4 +843,135 @@ func TestVerifC15(t *testing.T) {
 		raw, _ := json.Marshal(in)
 		run(fmt.Sprintf("%s-%s-%d", src, grp, i), src, grp, raw)
 	}
+}
+
+// ------------------------------------------------------------------ slow (a client that stops reading)
+
+type c15SlowIn struct {
+	FillKB   int   `json:"fillkb"`   // size of the QoS 0 filler messages
+	SubFirst bool  `json:"subfirst"` // while stalled: SUBSCRIBE before the PUBLISHes (else after)
+	IDs      []int `json:"ids"`      // packet ids of the QoS 1 PUBLISHes the client sends while stalled
+	HTTP1    int   `json:"http1"`    // QoS 1 messages published to it over HTTP while stalled
+	StallMS  int   `json:"stallms"`  // how long it does not read once the queue is full
+}
+
+type c15SlowObs struct {
+	Full     bool     `json:"full"`
+	SubsSent int      `json:"subs_sent"`
+	Subacks  int      `json:"subacks"`
+	IDs      []int    `json:"ids"`
+	Pubacks  []int    `json:"pubacks"`
+	HTTP1    int      `json:"http1"`
+	Q1       int      `json:"q1"`
+	Q0Sent   int      `json:"q0sent"`
+	Q0Recv   int      `json:"q0recv"`
+	Bad      []string `json:"bad"`
+}
+
+func c15RunSlow(in c15SlowIn) (obs c15SlowObs) {
+	obs.Bad, obs.IDs, obs.Pubacks = []string{}, []int{}, []int{}
+	defer func() {
+		if r := recover(); r != nil {
+			obs.Bad = append(obs.Bad, fmt.Sprintf("panic: %v", r))
+		}
+	}()
+	env := c15NewEnv(false, nil)
+	defer env.closeInto(&obs.Bad)
+	cli, code := env.dial("slow", true, true)
+	if cli == nil || cli.client == nil {
+		obs.Bad = append(obs.Bad, fmt.Sprintf("connect refused %d", code))
+		return
+	}
+	if tc, ok := cli.conn.(*net.TCPConn); ok {
+		tc.SetReadBuffer(16 << 10)
+	}
+	if r := cli.subscribe([]string{"fill/#", "q1/x"}, []byte{0, 1}); r != "ok" {
+		obs.Bad = append(obs.Bad, "subscribe: "+r)
+	}
+	obs.SubsSent = 1
+	c15Quiesce(env.open)
+	// stop reading and fill: socket buffers first, then the broker's write queue for this client
+	cli.pause(true)
+	filler := strings.Repeat("F", in.FillKB<<10)
+	for i := 0; i < 3000 && len(cli.client.writeCh) < cap(cli.client.writeCh); i++ {
+		env.httpPublishDist("fill/a", 0, filler, true)
+		obs.Q0Sent++
+		for j := 0; j < 50 && len(cli.client.writeCh) < cap(cli.client.writeCh); j++ {
+			d := c15Goroutines()
+			if !strings.Contains(d.example, "sendMsgToClient") {
+				break // this publish's fan-out is done
+			}
+			time.Sleep(200 * time.Microsecond)
+		}
+	}
+	obs.Full = len(cli.client.writeCh) == cap(cli.client.writeCh)
+	// while stalled the client keeps SENDING: every one of these must be answered in the end
+	send := func(subscribe bool) {
+		if subscribe {
+			sp := packets.NewControlPacket(packets.Subscribe).(*packets.SubscribePacket)
+			sp.MessageID = 9
+			sp.Topics, sp.Qoss = []string{"late/x"}, []byte{1}
+			cli.write(sp)
+			obs.SubsSent++
+			return
+		}
+		for _, id := range in.IDs {
+			pk := packets.NewControlPacket(packets.Publish).(*packets.PublishPacket)
+			pk.Qos, pk.MessageID, pk.TopicName, pk.Payload = 1, uint16(id), "up/slow", []byte(fmt.Sprintf("u%d", id))
+			cli.write(pk)
+			obs.IDs = append(obs.IDs, id)
+		}
+	}
+	send(in.SubFirst)
+	send(!in.SubFirst)
+	for i := 0; i < in.HTTP1; i++ {
+		env.httpPublishDist("q1/x", 1, fmt.Sprintf("q%d", i), true)
+		obs.HTTP1++
+	}
+	time.Sleep(time.Duration(in.StallMS) * time.Millisecond) // a lower bound: a longer stall changes nothing for correct code
+	// drain
+	cli.pause(false)
+	want := func() bool {
+		n := 0
+		seen := map[string]bool{}
+		for _, pk := range cli.recv {
+			if pk.Qos == 1 && strings.HasPrefix(pk.Payload, "q") && !seen[pk.Payload] {
+				seen[pk.Payload] = true
+				n++
+			}
+		}
+		return n >= in.HTTP1 && len(cli.pubacks) >= len(in.IDs) && cli.subacks >= obs.SubsSent
+	}
+	if r := cli.waitFor(want); r != "ok" {
+		// not everything arrived: say so through the counters below (a barrier still tells us the connection works)
+		_ = r
+	}
+	if r := cli.ping(); r != "ok" {
+		obs.Bad = append(obs.Bad, "barrier after the drain: "+r)
+	}
+	cli.mu.Lock()
+	obs.Subacks = cli.subacks
+	obs.Pubacks = append(obs.Pubacks, cli.pubacks...)
+	seen := map[string]bool{}
+	for _, pk := range cli.recv {
+		switch {
+		case pk.Qos == 1 && strings.HasPrefix(pk.Payload, "q") && !seen[pk.Payload]:
+			seen[pk.Payload] = true
+			obs.Q1++
+		case pk.Qos == 0 && len(pk.Payload) == len(filler):
+			obs.Q0Recv++
+		}
+	}
+	cli.recv = nil
+	cli.mu.Unlock()
+	return
+}
+
+func c15GenSlow(r *vfRand) c15SlowIn {
+	in := c15SlowIn{FillKB: r.PickInt(64, 128), SubFirst: r.Bool(), HTTP1: r.Intn(3), StallMS: 2600}
+	n := r.Range(1, 3)
+	for i := 0; i < n; i++ {
+		in.IDs = append(in.IDs, 21+i)
+	}
+	return in
 }
